@@ -60,6 +60,8 @@ def str2msg(text):
     calling check_msgdict().
     """
     words = text.split()
+    if not words:
+        raise ValueError('string contains no message')
     type_ = words[0]
     args = words[1:]
 
@@ -76,4 +78,7 @@ def str2msg(text):
 
         msg[name] = value
 
-    return make_msgdict(type_, msg)
+    try:
+        return make_msgdict(type_, msg)
+    except LookupError as le:
+        raise ValueError(*le.args) from le
